@@ -136,6 +136,7 @@ class Twin:
         self.up = {0}
         self.lk = {}
         self.pend, self.repl = [], []
+        self.outq = {}
         self.nextq = 0
         self.swapped = False
         self.feat = set()
@@ -158,16 +159,19 @@ class Twin:
             del self.lk[L]
 
     def enabled(self, t, a):
-        """a: ('c',) ('s', child) ('a',) ('n',) — is the step enabled?"""
+        """a: ('c',) ('s', child) ('a',) ('w',) ('d',) — is the step enabled?"""
         if self.procs[t] not in self.up:
             return False
         st = self.thr[t]
         if a[0] == "c":
-            return st is None or (st[0] == "sync" and st[1][0]["pc"] in ("csW", "csD"))
+            return st is None or (st[0] == "sync" and st[1][0]["pc"] == "cs")
         if a[0] == "s":
             return st is None
-        if a[0] == "n":
-            return st is not None and st[0] == "sync" and st[1][0]["pc"] == "csW"
+        if a[0] == "w":
+            return st is not None and st[0] == "sync" and st[1][0]["pc"] == "cs" and t not in self.outq
+        if a[0] == "d":
+            return (st is not None and st[0] == "sync" and st[1][0]["pc"] == "cs" and t in self.outq
+                    and bool(self.repl))
         if st is None:
             return False
         if st[0] == "sync":
@@ -177,8 +181,8 @@ class Twin:
                 return self.can_acq(f["l1"], t)
             if pc == "aq2":
                 return self.can_acq(f["l2"], t)
-            if pc == "csR":
-                return bool(self.repl)
+            if pc == "cs":
+                return not (len(st[1]) == 1 and t in self.outq)
             return True
         _, pc, l, pas, child = st
         if pc == "aq":
@@ -201,8 +205,19 @@ class Twin:
         if a[0] == "s":
             self.thr[t] = ["start", "ld", None, None, a[1]]
             return
-        if a[0] == "n":
-            st[1][0]["pc"] = "csD"
+        if a[0] == "w":
+            self.pend += [(self.nextq, 0), (self.nextq, 1)]
+            self.outq[t] = [self.nextq, 2]
+            self.nextq += 1
+            self.feat.add("query")
+            if len(st[1]) > 1:
+                self.feat.add("compound")
+            return
+        if a[0] == "d":
+            self.repl.pop(0)
+            self.outq[t][1] -= 1
+            if self.outq[t][1] == 0:
+                del self.outq[t]
             return
         if st[0] == "sync":
             f = st[1][0]
@@ -220,18 +235,10 @@ class Twin:
                 f["pc"] = "aq2"
             elif pc == "aq2":
                 self.acq(f["l2"], t)
-                f["pc"] = "csW"
+                f["pc"] = "cs"
                 if p != 0:
                     self.feat.add("child-inside")
-            elif pc == "csW":
-                self.pend.append(self.nextq)
-                self.nextq += 1
-                f["pc"] = "csR"
-                self.feat.add("query")
-            elif pc == "csR":
-                self.repl.pop(0)
-                f["pc"] = "csD"
-            elif pc == "csD":
+            elif pc == "cs":
                 f["pc"] = "rl2"
             elif pc == "rl2":
                 self.rel(f["l2"], t)
@@ -314,7 +321,7 @@ def gen_schedule(rng: random.Random, tier: str):
                 t = rng.choice(blocked)
                 a = ("a",)
             else:
-                a = rng.choice([("c",), ("a",), ("n",), ("s", rng.randrange(1, nproc + 1))])
+                a = rng.choice([("c",), ("a",), ("w",), ("d",), ("s", rng.randrange(1, nproc + 1))])
             steps.append(tok(a, t))
             if tw.enabled(t, a):
                 tw.step(t, a)
@@ -332,10 +339,15 @@ def gen_schedule(rng: random.Random, tier: str):
         elif st[0] == "sync":
             pc = st[1][0]["pc"]
             cands.append(("a",))
-            if pc == "csW":
-                cands.append(("n",))
-            if pc in ("csW", "csD") and len(st[1]) < max_depth and rng.random() < 0.4:
-                cands = [("c",)]
+            if pc == "cs":
+                if t in tw.outq:
+                    # a reply is outstanding: read it (here or in a nested call), maybe return from a
+                    # nested activation first — the outermost one cannot return yet
+                    cands = [("d",), ("d",)] + ([("a",)] if len(st[1]) > 1 else [])
+                elif rng.random() < 0.5:
+                    cands.append(("w",))
+                if len(st[1]) < max_depth and rng.random() < 0.4:
+                    cands = [("c",)]
         else:
             cands.append(("a",))
         cands = [a for a in cands if tw.enabled(t, a)]
@@ -344,7 +356,7 @@ def gen_schedule(rng: random.Random, tier: str):
             order = list(range(n))
             rng.shuffle(order)
             for u in order:
-                for a in (("a",), ("c",)):
+                for a in (("d",), ("a",), ("c",)):
                     if tw.enabled(u, a):
                         t, cands = u, [a]
                         break
@@ -372,6 +384,8 @@ def gen_schedule(rng: random.Random, tier: str):
         kind = "child-process"
     elif "swap" in feat:
         kind = "handover"
+    elif "compound" in feat:
+        kind = "compound-section"
     elif "nested" in feat:
         kind = "nested"
     else:
@@ -402,6 +416,8 @@ def parse_steps(steps):
     return out
 
 
+FSCHED_QUICK = 150
+FSCHED_THOROUGH = 1500
 MP_QUICK = [("spawn", "ctx", 0), ("spawn", "default", 1), ("fork", "default", 0)]
 MP_ALL = [(m, h, lz) for m in ("fork", "spawn", "forkserver") for h in ("default", "ctx") for lz in (0, 1)] + [("mixed", "ctx", 0), ("mixed", "ctx", 1)]
 
@@ -470,12 +486,36 @@ class C14(Property):
             yield Case(f"mp {method} {how} {lazy} {scale}", {"mp": [method, how, lazy, scale]},
                        f"real-mp-{method}-{how}-{'lazy' if lazy else 'eager'}", True)
         # the racing schedule of Props.raceSched first, in its three child flavours
-        race = "c0 a0 s1.1 a1 a1 a1 a1 a1 a1 c2 a2 a2 a2 a2 a0 a0 a0 c2 a2 a2 a2 r a2 a2 n2 a2 a2 a2 a2 a2 a2 a0 a0".split()
+        race = ("c0 a0 s1.1 a1 a1 a1 a1 a1 a1 c2 a2 a2 a2 a2 a0 a0 a0 c2 a2 a2 a2 a2 w2 r d2 a2 a2 a2 r d2 a2 a2 a2 "
+                "a0 a0 a0 a0 a0").split()
         for fl in ("run", "import", "fork"):
             yield Case(sched_line([0, 0, 1], race, {"1": fl}),
                        {"procs": [0, 0, 1], "steps": race, "flav": {"1": fl}}, "handover-stale-first-item", True)
+        # the REAL multi-step query functions over a virtual FIFO terminal, schedules generated online
+        # by the worker from what each real thread is parked at
+        nf = FSCHED_QUICK if tier == "quick" else FSCHED_THOROUGH
+        for _ in range(nf):
+            c = self.gen_fsched(rng, tier)
+            if c is not None:
+                yield c
         while True:
             yield gen_schedule(rng, tier)
+
+    def gen_fsched(self, rng, tier):
+        n = rng.choice([2, 2, 3])
+        progs = [rng.choice(["nv", "cs", "fb", "nv", "nv+cs", "fb+nv", "cs+fb", "cs+nv"]) for _ in range(n)]
+        procs = [0] * n
+        r = self.worker().call({"op": "fgen", "procs": procs, "progs": progs, "seed": rng.randrange(1 << 30),
+                                "maxsteps": 600})
+        if r.get("hang"):
+            self._hangs += 1
+            self._worker = None
+            return None
+        if "error" in r:
+            raise RuntimeError(r["error"])
+        steps = r["steps"]
+        line = (f"fsched {n} {' '.join(map(str, procs))} {len(steps)} {' '.join(steps)} {n} {' '.join(progs)}")
+        return Case(line, {"procs": procs, "steps": steps, "progs": progs}, "real-query-functions-" + str(n), True)
 
     # -- implementation -----------------------------------------------------------------
     def impl(self, case: Case) -> str:
@@ -491,8 +531,12 @@ class C14(Property):
             if j["intervals"] != j["expected"] or any(c != 0 for c in j["exitcodes"]):
                 raise RuntimeError(f"real multiprocessing run incomplete: {j}")
             return f"ok overlaps={j['overlaps']}"
-        r = self.worker().call({"op": "sched", "procs": d["procs"], "steps": parse_steps(d["steps"]),
-                                "flav": d.get("flav", {})})
+        if "progs" in d:
+            r = self.worker().call({"op": "fsched", "procs": d["procs"], "steps": parse_steps(d["steps"]),
+                                    "progs": d["progs"]})
+        else:
+            r = self.worker().call({"op": "sched", "procs": d["procs"], "steps": parse_steps(d["steps"]),
+                                    "flav": d.get("flav", {})})
         if r.get("hang"):
             self._hangs += 1
             self._worker = None
@@ -503,6 +547,16 @@ class C14(Property):
             self._viol[case.key()] = r["viol"]
         if r["errs"]:
             return "err " + ";".join(r["errs"])[:300]
+        if "progs" in d and r.get("used") and r["used"] != list(d["steps"]):
+            # the schedule was recorded on another version of the code (a replay): its thread order
+            # was followed with the actions the current code takes; the run counts as corresponding
+            # when the model agrees with THOSE actions
+            n = len(d["procs"])
+            line2 = (f"fsched {n} {' '.join(map(str, d['procs']))} {len(r['used'])} {' '.join(r['used'])} "
+                     f"{n} {' '.join(d['progs'])}")
+            m2, m1 = fw.run_driver(self.driver, [line2, case.line])
+            if m2 == r["res"]:
+                return m1
         return r["res"]
 
     # -- oracle -------------------------------------------------------------------------
@@ -521,6 +575,12 @@ class C14(Property):
         v = self._viol.get(case.key())
         if v:
             what = v[0].split(":")[0]
+            if "progs" in case.data:
+                fns = {"nv": "get_terminal_name_version", "fb": "get_fg_bg_colors", "cs": "get_cell_size"}
+                progs = [" then ".join(fns[f] + "()" for f in p.split("+")) for p in case.data["progs"]]
+                return Failure(f"fsched/{what}/{case.key()}",
+                               "; ".join(v[:3]) + " — real threads running " + " | ".join(progs) +
+                               f" over a FIFO terminal, forced schedule `{' '.join(case.data['steps'])[:400]}`")
             return Failure(f"sched/{what}/{case.key()}", v[0] + f" — schedule `{case.line[:300]}` flavours {case.data.get('flav')}")
         return None
 
@@ -551,8 +611,17 @@ class C14(Property):
         return []
 
     def search(self, rng, tier, reasons):
-        """a tie broke: try every real-multiprocessing configuration, then more schedules"""
+        """a tie broke: more real-query-function schedules, every real-multiprocessing configuration,
+        then more probe schedules"""
         fails = []
+        for _ in range(400):
+            c = self.gen_fsched(rng, "quick")
+            if c is None:
+                continue
+            f = self.oracle(c, self.impl(c))
+            if f:
+                f.case = c
+                return [f]
         for method, how, lazy in MP_ALL:
             j, err = self.run_mp(method, how, lazy, 1)
             if j and j["overlaps"]:
